@@ -32,7 +32,8 @@ _FSPEC = re.compile(r'([^:(]*)(?::([^(]*)(?:\((.*)\))?)?$')
 _INT = re.compile(r'-?[0-9]+$')
 _FLOAT = re.compile(r'-?[0-9]+(\.[0-9]+)?$')
 _UUID = re.compile(r'[0-9a-fA-F]{8}-?[0-9a-fA-F]{4}-?[0-9a-fA-F]{4}-?[0-9a-fA-F]{4}-?[0-9a-fA-F]{12}$')
-_WORD = re.compile(r'[A-Za-z][A-Za-z.\-]*$')
+_NOT_NUM = re.compile(r'[^0-9+\-_\s]')       # a character no number spelling contains
+_SIGN_INSIDE = re.compile(r'[0-9_][+\-]')      # a sign after a digit ('1-2'); 'e' handled by caller
 VETO = object()
 LIT, MULTI, SINGLE = 0, 1, 2
 
@@ -54,7 +55,7 @@ def _conv(cname, argstr):
 
         def f(s):
             if not _INT.match(s):
-                if _WORD.match(s) or s == '':
+                if s == '' or _NOT_NUM.search(s) or _SIGN_INSIDE.search(s):
                     return VETO
                 raise Unspecified('int(%r)' % s)
             v = int(s)
@@ -66,7 +67,9 @@ def _conv(cname, argstr):
         def f(s):
             if _FLOAT.match(s):
                 return float(s)
-            if (_WORD.match(s) and s.lower().strip('-') not in ('nan', 'inf', 'infinity')) or s == '':
+            if s == '' or _SIGN_INSIDE.search(s) or (
+                    _NOT_NUM.search(s.replace('.', '').replace('e', '').replace('E', ''))
+                    and s.lower().strip('+-') not in ('nan', 'inf', 'infinity')):
                 return VETO
             raise Unspecified('float(%r)' % s)
     elif cname == 'uuid':
@@ -82,7 +85,7 @@ def _conv(cname, argstr):
 
 
 class Node(object):
-    __slots__ = ('raw', 'kind', 'lits', 'fields', 'is_path', 'kids', 'routes')
+    __slots__ = ('raw', 'kind', 'lits', 'fields', 'cnames', 'is_path', 'kids', 'routes')
 
     def __init__(self, raw):
         self.raw = raw
@@ -91,11 +94,13 @@ class Node(object):
         pieces = _FIELD.split(raw)
         self.lits = pieces[0::2]
         self.fields = []        # [(name, convert | None)]
+        self.cnames = []        # converter name per field (None = plain)
         self.is_path = False
         for spec in pieces[1::2]:
             name, cname, argstr = _FSPEC.match(spec).groups()
             if cname == 'path':
                 self.is_path = True
+            self.cnames.append(cname)
             self.fields.append((name, _conv(cname, argstr) if cname and cname != 'path' else None))
         if not self.fields:
             self.kind = LIT
